@@ -234,6 +234,14 @@ def _run_job(modname, fname, job):
         return {"_error": traceback.format_exc(), "_job": repr(job)[:500]}
 
 
+def _proc_entry(conn, modname, fname, job):
+    _worker_init()
+    try:
+        conn.send(_run_job(modname, fname, job))
+    finally:
+        conn.close()
+
+
 class HarnessError(Exception):
     pass
 
@@ -277,17 +285,37 @@ class Ctx(Result):
                 self._take(_run_job(modname, fname, j))
             return
         ctx = mp.get_context("spawn")
-        # Workers are recycled after a few jobs: every XLA compilation maps executable memory that is never returned,
-        # and a long-lived worker eventually hits the process's map limit ("Cannot allocate memory").
-        # (ProcessPoolExecutor's own max_tasks_per_child dead-locks on Python 3.12.1, so the jobs are simply run in
-        # rounds, each round on a fresh pool.)
-        per_round = len(jobs) if not tasks_per_child else nw * tasks_per_child
-        for r0 in range(0, len(jobs), per_round):
-            chunk = jobs[r0:r0 + per_round]
-            with ProcessPoolExecutor(max_workers=min(nw, len(chunk)), mp_context=ctx, initializer=_worker_init) as ex:
-                futs = [ex.submit(_run_job, modname, fname, j) for j in chunk]
+        if not tasks_per_child:
+            with ProcessPoolExecutor(max_workers=nw, mp_context=ctx, initializer=_worker_init) as ex:
+                futs = [ex.submit(_run_job, modname, fname, j) for j in jobs]
                 for f in as_completed(futs):
                     self._take(f.result())
+            return
+        # Fresh process per job (at most nw alive): every XLA compilation maps executable memory that is never
+        # returned, and a long-lived worker eventually hits the process's map limit ("Cannot allocate memory").
+        # (ProcessPoolExecutor's own max_tasks_per_child dead-locks on Python 3.12.1; a pool per round of jobs
+        # leaves the cores idle behind the slowest job of each round.)
+        from multiprocessing.connection import wait as conn_wait
+
+        pending = list(jobs)
+        running = {}
+        while pending or running:
+            while pending and len(running) < nw:
+                j = pending.pop(0)
+                rd, wr = ctx.Pipe(duplex=False)
+                p = ctx.Process(target=_proc_entry, args=(wr, modname, fname, j), daemon=True)
+                p.start()
+                wr.close()
+                running[rd] = (p, j)
+            for rd in conn_wait(list(running), timeout=5.0):
+                p, j = running.pop(rd)
+                try:
+                    out = rd.recv()
+                except EOFError:
+                    out = {"_error": "worker process died without a result (exit code %r)" % p.exitcode, "_job": repr(j)[:500]}
+                rd.close()
+                p.join()
+                self._take(out)
 
     def _take(self, out):
         if "_error" in out:
